@@ -291,15 +291,59 @@ def formula_spans(src, rl):
 def plan(tier, seed):
     n = 1920 if tier == 'quick' else 40000
     shards = [('docs', n // NSHARDS, seed * 1000 + k, tier) for k in range(NSHARDS)]
+    shards += [('names', k, tier) for k in range(NSHARDS)]
     return {'shards': shards, 'bounds': {'documents': n, 'option_sets':
                                          len(quick_opts()) if tier == 'quick' else len(ALL_OPTS)},
             'required_classes': ['marker:CMT', 'marker:MTH', 'marker:DSC', 'marker:TXT',
                                  'comment-between-macro-and-argument', 'comment-in-math',
                                  'discarded-content', 'formula:$', 'formula:env', 'formula:\\[',
-                                 'comment-last-without-newline']}
+                                 'comment-last-without-newline',
+                                 'comment-after-every-known-name']}
+
+
+def check_names(k, tier, res):
+    """a comment directly / after whitespace / after the arguments of every macro and environment
+    name known to the default walker database must not leak when keep_comments is off"""
+    from .c07 import names, _args
+    macros, envs = names()
+    opts = [o for o in (quick_opts() if tier == 'quick' else ALL_OPTS) if not o['keep_comments']
+            and o['math_mode'] != 'verbatim'][:6]
+    items = [('m', n, a) for n, a in sorted(macros.items())] + \
+            [('e', n, a) for n, a in sorted(envs.items())]
+    for i, (what, n, a) in enumerate(items):
+        if i % NSHARDS != k or n in ('verb', 'verbatim', 'lstlisting', 'input', 'include'):
+            continue
+        if what == 'm':
+            m = '\\' + n
+            srcs = ['A' + m + '%CMTQ\nB', 'A' + m + ' %CMTQ\n B', 'A' + m + _args(a, True) +
+                    '%CMTQ\nB', '{' + m + '%CMTQ\n}B', '$' + m + '%CMTQ\n$B']
+        else:
+            b, e = '\\begin{%s}' % n, '\\end{%s}' % n
+            srcs = [b + '%CMTQ\n' + _args(a, True) + 'x' + e, b + _args(a, True) + '%CMTQ\nx' + e,
+                    b + _args(a, True) + 'x%CMTQ\n' + e, b + _args(a, True) + 'x' + e + '%CMTQ']
+        for src in srcs:
+            for o in opts:
+                res.case()
+                case = {'src': src, 'opts': o}
+                try:
+                    with monitor.budget(len(src)):
+                        out = l2t(o).latex_to_text(src, latex_context=wctx())
+                except BaseException as e:
+                    res.fail(exc_key(e), exc_detail(e) + ' on %r' % src, case)
+                    continue
+                if 'CMTQ' in ''.join(out.split()):
+                    res.fail('c12:comment-leaks:after-known-name',
+                             'comment text appears although keep_comments is off: %r -> %r'
+                             % (src, out), case)
+                res.nontriv_distinct()
+        res.label('comment-after-every-known-name')
 
 
 def run_shard(shard, res):
+    if shard[0] == 'names':
+        check_names(shard[1], shard[2], res)
+        res.exhaustive = True
+        return
     _, n, seed, tier = shard
     opts = quick_opts() if tier == 'quick' else ALL_OPTS
 
@@ -309,6 +353,12 @@ def run_shard(shard, res):
 
 
 def check_case(case, res):
+    if 'src' in case:
+        res.case()
+        out = l2t(case['opts']).latex_to_text(case['src'], latex_context=wctx())
+        if 'CMTQ' in ''.join(out.split()):
+            res.fail('c12:comment-leaks:after-known-name', '%r -> %r' % (case['src'], out), case)
+        return
     check_doc(case['ast'], [case['opts']], res, {'ast': case['ast']})
 
 
